@@ -225,6 +225,17 @@ CHECKS["C19"] = dict(
     technique="CrossHair symbolic execution (z3) over DAG shapes + SMT check of dispatch tables",
     design="§4 C19", engine="E2", note=XH_NOTE)
 
+CHECKS["C13"] = dict(
+    level="proof",
+    text="For 14 terminal-like classes CrossHair explores pairs and triples of instances with symbolic payload (counts "
+         "across the 9/10 digit boundary, numbers, parts, shapes, dims, mesh ids) and confirms over all paths that == is "
+         "reflexive, symmetric, transitive, implies equal hash/repr/shape, holds for equal payloads, and that comparing "
+         "changes neither repr nor hash; pairs of expression DAGs from symbolic adjacency lists: == iff structurally "
+         "equal, stable under repetition in both orders, both DAGs untouched; hash-colliding index pairs. Pickle and "
+         "eval(repr) round trips of a fixed list are concrete side checks.",
+    technique="CrossHair symbolic execution (z3) of the real __eq__/__hash__/__repr__ and expr_equals over payload and DAG-shape spaces",
+    design="§4 C13", engine="E2", note=XH_NOTE)
+
 NOT_APPLICABLE = {
     "C11": "Signature injectivity is injectivity of string renderings (repr/str, numpy array printing, float "
            "formatting) composed with sha512: CrossHair cannot confirm it, z3/cvc5 string theories answer unknown, "
